@@ -434,6 +434,7 @@ func outLast() any                               { return nil }
 //@ atcall executeItemOptUnwrapTarget assert [C07] below-anypath: ignoreStructuralErrors ==> exec.ignoreStructuralErrors
 //@ atcall executeAnyItem assert [C15 C07] descend: level < last && arg_level == level+1 && arg_first == first && arg_last == last && arg_node == node && arg_found == found && (is[[]any](v) && as[[]any](v) != nil ==> sameSlice(arg_value, as[[]any](v))) && (is[map[string]any](v) ==> len(arg_value) == len(as[map[string]any](v)) && arg_value != nil) && (!is[[]any](v) && !is[map[string]any](v) ==> arg_value == nil) && arg_ignoreStructuralErrors == ignoreStructuralErrors && arg_unwrapNext == unwrapNext
 //@ ensures [C15] level-cut: level > last ==> r0 == statusNotFound && r1 == nil && ncalls(exec.executeItemOptUnwrapTarget) == 0 && ncalls(exec.executeAnyItem) == 0
+//@ ensures [C15] visited-within-the-bounds: level <= last && len(value) > 0 && node != nil && level >= first ==> ncalls(exec.executeItemOptUnwrapTarget) >= 1
 //@ ensures [C01] collect-cannot-fail: node == nil && found != nil ==> r0 != statusFailed && r1 == nil
 
 //@ func (*Executor).execAnyNode
